@@ -512,7 +512,10 @@ pub fn build_failure_text(b: &BuildOut) -> String {
 /// Class-key fragment for a failed build: panic location or first diagnostic, digits stripped.
 pub fn build_failure_key(b: &BuildOut) -> String {
     if b.panic.is_some() {
-        format!("panic@{}", b.panic_loc.trim_start_matches("/repo/"))
+        // location relative to the repository root (works for /repo and for lab worktrees)
+        let loc = b.panic_loc.as_str();
+        let rel = loc.find("/sway-").or_else(|| loc.find("/forc-")).map(|p| &loc[p + 1..]).unwrap_or(loc);
+        format!("panic@{rel}")
     } else {
         let first = b
             .diagnostics
